@@ -499,7 +499,28 @@ def p_blocks(r, op):
     return line(op, r, entry, blocks, [data], r.randint(1, 30), presets(r, ptr, extra))
 
 
-SHAPES = [(p_straight, 3), (p_membuf, 4), (p_loop, 3), (p_branches, 2), (p_calls, 2), (p_badjump, 2),
+def p_selfjump(r, op):
+    """control transfers to the instruction's own address: jal rd,0 / taken and not-taken zero-offset branches /
+    jalr landing on itself; the machine must stay (or leave) exactly as the reference does"""
+    cbase, data, ptr = layout(r)
+    p = Prog(r, cbase)
+    body(r, p, r.randint(0, 3), mem=0.2)
+    k = r.random()
+    a = reg(r, zero=0.3)
+    if k < 0.3:
+        p.emit(jtype(r.choice([0, 0, 11]), 0))
+    elif k < 0.75:
+        # same register twice: beq/bge/bgeu taken, bne/blt/bltu not taken; or two registers
+        b = a if r.random() < 0.6 else reg(r)
+        p.emit(btype(r.choice(BRANCHES), a, b, 0))
+    else:
+        p.emit(utype("auipc", 13, 0))
+        p.emit(itype("jalr", r.choice([0, 11]), 13, 4))
+    body(r, p, r.randint(1, 3), mem=0.2)
+    return line(op, r, cbase, [(cbase, p.assemble())], [data], r.randint(2, 12), presets(r, ptr))
+
+
+SHAPES = [(p_selfjump, 1), (p_straight, 3), (p_membuf, 4), (p_loop, 3), (p_branches, 2), (p_calls, 2), (p_badjump, 2),
           (p_div, 1), (p_narrowreg, 1), (p_unknown, 3), (p_readcode, 1), (p_blocks, 1)]
 
 
